@@ -293,6 +293,23 @@ where
                         let l = b.len();
                         inputs.push((b, l));
                     }
+                    // .. whatever they hold: every kind of item must be stepped over
+                    let contents = [
+                        Item::tag(5, Item::text("x")),
+                        Item::Simple(23),
+                        Item::Simple(40),
+                        Item::Nint(u64::MAX, W::W8),
+                        Item::f16(0x3c00),
+                        Item::Bytes(vec![1, 2], StrForm::Indef(vec![(1, W::Imm), (1, W::Imm)])),
+                        Item::tag(u64::MAX, Item::Array(vec![Item::Simple(22)], Len::Indef)),
+                    ];
+                    for c in contents {
+                        let mut e2 = es.clone();
+                        e2.insert(0, (Item::text("zz_unknown"), c));
+                        let b = Item::map(e2).to_bytes();
+                        let l = b.len();
+                        inputs.push((b, l));
+                    }
                 }
                 _ => {}
             }
